@@ -20,6 +20,10 @@ CHECKS = {
   text="Stateless model checking of the real implementation: the real ignore::WalkParallel runs under a cooperative replay scheduler (feature verif-hooks) and every interleaving of its hooked synchronisation points is executed up to a preemption bound (iterative preemption bounding, CHESS style), with injected Steal::Retry answers and a visitor Quit injected at every visit index, over all small trees; oracle: termination (deadlock / livelock detection) and exact visit multiset.",
   note="Trusted: crossbeam-deque linearizability (each deque operation is one atomic step; Retry is injected), SC behaviour of the RMW/SeqCst atomics, the scheduler hook itself. Not covered: more than 3 (quick) / 4 (thorough) workers, trees above the size bound, schedules needing more preemptions than the bound.",
   tech="stateless model checking: exhaustive schedule exploration of the real code under a controlled scheduler with a preemption bound"),
+ "C09": dict(cat="exploration", ref="DESIGN.md §4 C09",
+  text="Bounded exhaustive enumeration: every input over {a,b,é,0xFF,\\r,\\n} up to length 4/5 (plus a family of 10 KiB / 70 KiB lines) x 14/36 patterns (+8 multi-line ones) x every subset of -n -b --column --vimgrep -H --heading --null x context x {line, -U, --crlf}, rendered in-process by the standard printer and parsed back with the mode's grammar: every record's text is the input's line at the printed line number / byte offset and the column is the start of the first reference match; JSON printer: begin / ordered match+context / end framing, lines and submatches decode (text or base64, base64 iff not UTF-8) to the input at absolute_offset, submatches equal the reference regex's matches, concatenation == input when every line is reported; plus a searcher/printer reuse layer (259 files in a row through search_path).",
+  note="-o, -r, --trim, --max-columns are outside the property by its statement. Under --crlf inputs with a bare CR are not judged for match positions (documented: the matcher never matches \\r). Known finding (open): in multi-line mode every line of a block carries the block's first column.",
+  tech="bounded exhaustive enumeration of inputs x patterns x flag subsets; output parsed back and compared with the input and a reference matcher"),
  "C10": dict(cat="exploration", ref="DESIGN.md §4 C10",
   text="Bounded exhaustive metamorphic enumeration: every content over {a,b,-,\\n} up to length 5/6 (plus CRLF variants) x 33 patterns (empty-matching, anchors, word boundaries, ten that can match a line terminator) x 11/17 flag sets (-i -w -x -v -U -m N --crlf), each group rendered in-process (printers configured as hiargs.rs does) in ten modes and checked against the statement's relations; plus a command-line layer on 3-file trees for per-file counts, exit status, mode normalisation and --stats totals. No hand-written expected outputs.",
   note="The --count relation is keyed on the strategy actually used (line-by-line: count == matching lines printed; true multi-line: count == count-matches, as the flag documentation defines). Binary files excluded (C14).",
